@@ -88,6 +88,24 @@ class VLoop(asyncio.SelectorEventLoop):
         self.settle()
         return True
 
+    def run_until_fine(self, pred: Callable[[], bool], horizon: float) -> bool:
+        """Like run_until, but pred() is checked after every single loop iteration."""
+        spins = 0
+        while not pred():
+            if self.has_ready() or self.due():
+                self.step()
+                spins += 1
+                if spins > self.max_spins:
+                    raise Stall(f'{spins} loop iterations without virtual time progress at t={self._vnow}')
+                continue
+            spins = 0
+            t = self.next_timer()
+            if t is None or t > horizon:
+                self.advance_to(horizon)
+                return pred()
+            self.advance_to(t)
+        return True
+
     def run_until(self, pred: Callable[[], bool], horizon: float) -> bool:
         """Run (virtual time) until pred() holds; False if the horizon was reached or the loop went idle."""
         self.settle()
